@@ -445,6 +445,7 @@ func c10BuildCases(run *core.Run) []C10Case {
 		"text/xml":         {"<a b=\"&#1\">&#x1;&am</a>"},
 		"application/json": {"{\"a\":\"\\u00\",\"b\":1.5e-}"},
 	}
+	hostile["text/css"] = append(hostile["text/css"], "a{margin:0;color:!important;fill:!important;margin:!important}b{color: !important ;background:! important;c:}", "a{b:;c: ;d:!important;e:,;f:/;g:();h:url()}")
 	hostile["text/html"] = append(hostile["text/html"], "<p>x<svg viewBox=\"0 0 100\"><defs/><g><defs></defs></g><defs", "<ul><li>a<li>b</ul><table><tr><td>c<td>d</table><select><option>e<option>f</select><p>g<p>h")
 	for _, mt := range sixTypes {
 		// ... and of the small everyday inputs of the type
@@ -531,7 +532,16 @@ func c10RunBatch(scratch string, id int, cases []C10Case) []c10Result {
 	f.Close()
 	logPath := filepath.Join(scratch, fmt.Sprintf("batch-%d.log", id))
 	start := 0
+	expiries := 0
 	for start < len(cases) {
+		if expiries >= 4 {
+			// four cases of this batch did not return: the rest is not waited for (each costs a full watchdog);
+			// what was seen decides the run
+			for i := start; i < len(cases); i++ {
+				res[i].state = "skipped"
+			}
+			break
+		}
 		os.Remove(logPath)
 		cmd := exec.Command(os.Args[0], "c10child", path, logPath, fmt.Sprint(start))
 		stderr := &bytes.Buffer{}
@@ -566,6 +576,7 @@ func c10RunBatch(scratch string, id int, cases []C10Case) []c10Result {
 				res[i].bad = kind
 				last = -1
 				start = i + 1
+				expiries++
 			case l == "DONE":
 				done = true
 			}
@@ -630,15 +641,23 @@ func C10(run *core.Run) {
 		run.Violation(core.Key(cfg, c.Input), fmt.Sprintf("%s [%s, %d bytes]: %s", cfg, c.Label, len(c.Input), what), map[string]interface{}{"case": cfg, "source": c.Label, "input_b64": c.Input, "input_preview": core.Trunc(string(c.Input), 400)})
 	}
 	fam := map[string][3]time.Duration{}
+	confirmedHangs := 0
 	for i, c := range cases {
 		r := results[i]
 		run.Eval()
 		switch {
 		case r.state == "crash":
 			report(c, "the process died (fatal error): "+r.bad)
+		case r.state == "skipped":
+			run.Count("cases_skipped_after_four_expiries_in_their_batch")
+		case r.state == "timeout" && confirmedHangs >= 4 && c.Family == "":
+			run.Count("expiries_not_confirmed_individually_after_four_confirmed_hangs")
 		case r.state == "timeout":
 			// confirm alone in a fresh child with a fresh watchdog; a repeated expiry with the CPU actually burnt is a hang
 			rs := c10RunBatch(scratch, 1000+i, []C10Case{c})
+			if rs[0].state == "timeout" && rs[0].bad != "starved" && c.Family == "" {
+				confirmedHangs++
+			}
 			if rs[0].state == "timeout" && (c.Family == "js-vars" || c.Family == "js-manyvars") && run.KnownSignature("js-var-declarations-quadratic") {
 				continue
 			}
